@@ -68,6 +68,17 @@ def _exprs(node):
             yield from _exprs(v)
 
 
+def _stmts(node):
+    if isinstance(node, dict):
+        if "k" in node and "arms" in node:
+            yield node
+        for v in node.values():
+            yield from _stmts(v)
+    elif isinstance(node, list):
+        for v in node:
+            yield from _stmts(v)
+
+
 def _lets(node):
     if isinstance(node, dict):
         if node.get("k") == "let" and "arms" in node:
@@ -86,7 +97,8 @@ PROGRAM_HAS = {
     "neg_of_negative_literal": lambda p: any(e["k"] == "un" and e["s"] == "-" and e["a"][0]["k"] == "int" and e["a"][0]["i"][0] >= 32768 for e in _exprs(p)),
     "literal_arithmetic": lambda p: any(e["k"] == "bin" and e["s"] in ("+", "-", "*") and all(a["k"] == "int" for a in e["a"]) for e in _exprs(p)),
     "self_comparison": lambda p: any(e["k"] == "bin" and e["s"] in CMP and e["a"][0] == e["a"][1] for e in _exprs(p)),
-    "strlen_in_comparison": lambda p: any(e["k"] == "bin" and e["s"] in CMP and any(a["k"] == "call" and a["s"] == "str_length" for a in e["a"]) for e in _exprs(p)),
+    "strlen_in_comparison": lambda p: any(e["k"] == "bin" and e["s"] in CMP and any(a["k"] == "call" and a["s"] == "str_length" for a in e["a"]) for e in _exprs(p))
+                                      or any(st["k"] == "for" and any(a["k"] == "call" and a["s"] == "str_length" for a in st["a"]) for st in _stmts(p)),     # the loop test i < strlen(s)
     "enum_in_composite": lambda p: any(e["k"] in ("tlit", "alit") and any(a["k"] == "enum" for a in e["a"]) for e in _exprs(p))
                                    or any(l["t"].startswith("(") and "Color" in l["t"] for l in _lets(p)),
     "let_mentions_own_name": lambda p: any(any(e["k"] == "var" and e["s"] == l["s"] for e in _exprs(l["a"])) for l in _lets(p)),
@@ -146,7 +158,7 @@ def run(ctx):
     for k in range(20 if ctx.tier == "quick" else 250):
         progs["gen_%d_%d" % (ctx.seed, k)] = Gen(ctx.seed * 4000037 + k).program()
     for k in range(8 if ctx.tier == "quick" else 80):
-        progs["genmap_%d_%d" % (ctx.seed, k)] = Gen(ctx.seed * 4000037 + 500000 + k, features={"maps": True}).program()
+        progs["genmap_%d_%d" % (ctx.seed, k)] = Gen(ctx.seed * 4000037 + 500000 + k, features={"maps": True, "fnvals": k % 2 == 1}).program()
     # the C05 mutants: those the real checker accepts although NanoType rejects them are C04 subjects as well
     _, allm = c05.build_mutants(ctx, 2 if ctx.tier == "quick" else 6)
     for mid, m in allm.items():
